@@ -16,8 +16,10 @@ import EdzedProofs.FsmTimer
 import EdzedProofs.FsmTie
 import EdzedProofs.FsmTimerTie
 import EdzedProofs.FsmRestoreTie
+import EdzedProofs.TimerBlkTie
 import EdzedModel.Gen.TranslatedFsmTimer
 import EdzedModel.Gen.TranslatedFsm
+import EdzedModel.Gen.TranslatedTimerBlk
 import EdzedModel.Gen.Constants
 
 namespace Edzed.FsmTimer
@@ -827,5 +829,265 @@ theorem translated_fsmtimer_restore_is_persist_model (c : Persist.FsmCls) (cal :
       · have htn : now + ((t : Int) - (now : Int)).toNat = t := by omega
         cases hte : c.timedEv st <;> rtsimp [restoreOutcome, Persist.restore, hst, hco, hz, hle, hte, ho, htn]
         exact Nat.add_sub_of_le (Nat.le_of_lt (Nat.lt_of_not_le hle))
+
+end Edzed.TrTie
+
+/-! ## Tie by translation: the block `Timer`, the body of `class FSM`, `FSM.__init_subclass__`
+
+`Gen.TrB.timerInit`, `timerCondStart`, `timerCondStop`, `timerCalcOutput` are generated by tools/py2lean_timerblk.py
+from the CURRENT source of `Timer.__init__`, `Timer.cond_start`, `Timer.cond_stop`, `Timer.calc_output`
+(edzed/blocklib/fsms.py); `fsmCalcOutput`, `fsmState`, `fsmInitFromValue`, `fsmClassDefaults`, `fsmDeclaredTables`,
+`initSubclassActs` from `FSM.calc_output`, `FSM.state`, `FSM.init_from_value`, the body of `class FSM` and
+`FSM.__init_subclass__` (edzed/fsm.py).  `Timer.__init__` is translated over an abstract mapping; here it runs on the
+model's keyword arguments (`TimerKw` with `kwHas` / `kwPop` / `kwSet`, EdzedProofs/TimerBlkTie.lean), `time_period` is
+`timePeriodDur` (the function itself is tied in C19), `period / 2` is `halfDur`, `super().__init__` is `fsmInitKw`.
+`translated_…_is_model` say that the translated code computes the model (`timerNew`, the conditions and the output
+function of `timerCfg`, `initOp`); the `timer_…` theorems are the documented behaviour of the block, derived from the
+translated callbacks, the extracted tables and the model of the FSM. -/
+
+namespace Edzed.TrTie
+open Edzed.FsmTimer Edzed.Gen.TrB
+
+/-- `restartable` defaults to True -/
+theorem translated_timer_restartable_by_default : timerRestartableDefault = true := rfl
+
+/-- `Timer(**kw, restartable=…)` through the TRANSLATED `Timer.__init__`: the keyword arguments it passes to
+    `FSM.__init__` and the flag it stores make the configuration of the block -/
+def timerInitCfg (kw : TimerKw) (restartable : Bool) (init : String := Gen.timerDefault) : Except ErrKind Cfg :=
+  match timerInit excOf kwHas kwPop kwSet timePeriodDur halfDur fsmInitKw (fun (b : Bool) => b) restartable kw with
+  | .ok (some k, some b) => .ok (timerCfg (k.tOn.getD .none) (k.tOff.getD .none) b init)
+  | .ok _ => .error .fuel
+  | .error e => .error e
+
+theorem translated_timer_init_is_model (kw : TimerKw) (restartable : Bool) (init : String) :
+    timerInitCfg kw restartable init = timerNew kw restartable init := by
+  obtain ⟨p, a, b⟩ := kw
+  unfold timerInitCfg timerInit timerNew timerKwargs
+  cases p with
+  | none =>
+    cases a with
+    | none => cases b with
+      | none => simp [kwHas, fsmInitKw]
+      | some v => by_cases h : v = Dur.bad <;> simp [kwHas, fsmInitKw, h]
+    | some u => cases b with
+      | none => by_cases h : u = Dur.bad <;> simp [kwHas, fsmInitKw, h]
+      | some v => by_cases h : u = Dur.bad <;> by_cases h2 : v = Dur.bad <;> simp [kwHas, fsmInitKw, h, h2]
+  | some pv =>
+    cases a with
+    | some u => simp [kwHas]; rfl
+    | none => cases b with
+      | some v => simp [kwHas]; rfl
+      | none =>
+        cases pv with
+        | none => simp [kwHas, kwPop, kwSet, fsmInitKw, timePeriodDur, halfDur, clamp]
+        | inf => simp [kwHas, kwPop, kwSet, fsmInitKw, timePeriodDur, halfDur, clamp]
+        | bad => simp [kwHas, kwPop, kwSet, fsmInitKw, timePeriodDur, halfDur, clamp]
+        | us n => simp [kwHas, kwPop, kwSet, fsmInitKw, timePeriodDur, halfDur, clamp]
+
+/-- the model's conditions of `start` / `stop` ARE `Timer.cond_start` / `cond_stop` as translated -/
+theorem translated_timer_conds_are_model (a b : Dur) (r : Bool) (init : String) (s : St) (d : EvData) :
+    evalConds s d ((timerCfg a b r init).condsOf "start") = some (s, timerCondStart r s.state) ∧
+    evalConds s d ((timerCfg a b r init).condsOf "stop") = some (s, timerCondStop r s.state) := by
+  cases r <;> simp [timerCfg, Cfg.condsOf, evalConds, evalCond, timerCondStart, timerCondStop, bne]
+  constructor <;> (cases s.state <;> simp) <;> (rename_i v; first | (by_cases h : v = "on" <;> simp [h]) | (by_cases h : v = "off" <;> simp [h]))
+
+/-- the model's output function of a Timer IS `Timer.calc_output` as translated (an FSM without state
+    has no output yet) -/
+theorem translated_timer_calc_output_is_model (a b : Dur) (r : Bool) (init : String) (s : St) :
+    calcOutput (timerCfg a b r init) s =
+      some (match s.state with
+            | none => Val.undef
+            | some _ => Val.bool (timerCalcOutput s.state)) := by
+  cases hs : s.state with
+  | none => simp [calcOutput, timerCfg, hs]
+  | some v =>
+    by_cases h : v = "on"
+    · simp [calcOutput, timerCfg, timerCalcOutput, hs, h]
+    · have hb : (v == "on") = false := by simpa using h
+      simp [calcOutput, timerCfg, timerCalcOutput, hs, h, hb]
+
+/-- the default `FSM.calc_output` (the state itself) and the property `FSM.state` -/
+theorem translated_fsm_calc_output_is_model (c : Cfg) (s : St) (hc : c.outFn = .state) :
+    calcOutput c s = some (match fsmCalcOutput s.state with
+                           | none => Val.undef
+                           | some q => Val.str q) ∧ fsmState s.state = s.state := by
+  cases hs : s.state <;> simp [calcOutput, hc, fsmCalcOutput, fsmState, hs]
+
+/-- `init_from_value(value)` sends `Goto(value)` without data: the model's `initOp` -/
+theorem translated_fsm_init_from_value_is_model (c : Cfg) (s : St) :
+    initOp c s = deliver c { s with input := c.initInput }
+      (fsmInitFromValue (E := TEvent) (D := EvData) Gen.TEvent.goto {} c.initState).1
+      (fsmInitFromValue (E := TEvent) (D := EvData) Gen.TEvent.goto {} c.initState).2 := rfl
+
+/-- the body of `class FSM`: STATES / TIMERS / EVENTS default to empty, and exactly the nine `_ct_*` tables that
+    `_build_tables` creates are declared -/
+theorem translated_fsm_class_attributes :
+    fsmClassDefaults = [("EVENTS", .emptyTuple), ("STATES", .emptyTuple), ("TIMERS", .emptyDict)] ∧
+    fsmDeclaredTables.map (·.1) = ["_ct_chainlimit", "_ct_default_duration", "_ct_default_state", "_ct_events",
+      "_ct_methods", "_ct_prefixes", "_ct_states", "_ct_timed_event", "_ct_transition"] := by decide
+
+/-- `__init_subclass__`: the handler tables of the base class exist before `_build_tables` checks the event
+    names against them, and an invalid table is NOT swallowed: the same error is re-raised (with a note) -/
+theorem translated_fsm_init_subclass_order (buildRaises : Bool) :
+    initSubclassActs buildRaises =
+      [.superInitSubclass, .buildTables] ++ (if buildRaises then [.addNote, .reraise] else []) ∧
+    (SubclassAct.reraise ∈ initSubclassActs buildRaises ↔ buildRaises = true) := by
+  cases buildRaises <;> decide
+
+/-! ### the documented behaviour of Timer, from the translated callbacks, the extracted tables and the model -/
+
+/-- `start` while on, initialised: the event is known, the table leads to `on`, and the decision is the
+    TRANSLATED `cond_start` (through `translated_timer_conds_are_model`) -/
+theorem timer_resolve_start_on (a b : Dur) (r : Bool) (init : String) (s : St) (d : EvData)
+    (hs : s.state = some "on") (ho : s.out.isUndef = false) :
+    resolve (timerCfg a b r init) (setCtx s d) (.ev "start") d =
+      (setCtx s d, if timerCondStart r s.state then Resolved.target "on" else Resolved.reject) := by
+  have e1 : "start" ∈ timerTable.events := by decide
+  have l1 : timerTable.lookup "start" "on" = some "on" := by decide
+  have hc := (translated_timer_conds_are_model a b r init (setCtx s d) d).1
+  have hs' : (setCtx s d).state = some "on" := hs
+  have ho' : (setCtx s d).out.isUndef = false := ho
+  have ht : (timerCfg a b r init).tbl = timerTable := rfl
+  have hst : (setCtx s d).state = s.state := rfl
+  simp only [resolve, ht, e1, l1, hs', ho', hc, hst, List.contains_eq_mem, decide_true, Bool.not_true,
+    Bool.false_eq_true, if_false]
+  rw [hs]
+  cases timerCondStart r (some "on") <;> rfl
+
+/-- **`start` while on, not restartable**: the event is not accepted (`cond_start` is false) and the pending
+    timer -- the very handle with its expiry time -- is untouched -/
+theorem timer_start_in_on_not_restartable (a b : Dur) (init : String) (s : St) (d : EvData)
+    (hs : s.state = some "on") (ho : s.out.isUndef = false) :
+    timerCondStart false s.state = false ∧
+    (FsmTimer.ctxEvent (timerCfg a b false init) s (.ev "start") d).2 = .ret false ∧
+    live (FsmTimer.ctxEvent (timerCfg a b false init) s (.ev "start") d).1 = live s ∧
+    (FsmTimer.ctxEvent (timerCfg a b false init) s (.ev "start") d).1.active = s.active := by
+  have hc : timerCondStart false s.state = false := by simp [timerCondStart, hs]
+  have hr := timer_resolve_start_on a b false init s d hs ho
+  rw [hc] at hr
+  simp only [Bool.false_eq_true, if_false] at hr
+  refine ⟨hc, ?_, ?_, ?_⟩ <;> (unfold FsmTimer.ctxEvent; rw [hr]) <;> simp [live, setCtx]
+
+/-- **`start` while on, restartable**: the event is accepted (`cond_start` is true), the pending timer is
+    cancelled and a new one is armed for the full `t_on` from now -/
+theorem timer_start_in_on_restartable (n : Int) (hn : 0 < n) (b : Dur) (init : String) (ops : List Op) (d : EvData)
+    (hd : d.dur = Dur.none)
+    (hf : (run (timerCfg (.us n) b true init) {} ops).failed = none)
+    (hs : (run (timerCfg (.us n) b true init) {} ops).state = some "on")
+    (ho : (run (timerCfg (.us n) b true init) {} ops).out.isUndef = false)
+    (hst : (run (timerCfg (.us n) b true init) {} ops).stopped = false) :
+    timerCondStart true (run (timerCfg (.us n) b true init) {} ops).state = true ∧
+    (FsmTimer.ctxEvent (timerCfg (.us n) b true init) (run (timerCfg (.us n) b true init) {} ops) (.ev "start") d).2
+      = .ret true ∧
+    ∃ h', live (FsmTimer.ctxEvent (timerCfg (.us n) b true init) (run (timerCfg (.us n) b true init) {} ops)
+              (.ev "start") d).1 = [h'] ∧
+      h'.when = (run (timerCfg (.us n) b true init) {} ops).now + n.toNat ∧ h'.ev = .ev "stop" ∧
+      h'.epoch = (run (timerCfg (.us n) b true init) {} ops).epoch + 1 := by
+  have i := inv_run (timerCfg (.us n) b true init) ops {} (inv_init _)
+  have q := quiet_run (timerCfg (.us n) b true init) ops {}
+    (fun _ => ⟨rfl, fun h => by simp [Val.isUndef] at h⟩) hf
+  generalize run (timerCfg (.us n) b true init) {} ops = s at hf hs ho hst i q
+  have hc : timerCondStart true s.state = true := by simp [timerCondStart]
+  have hr := timer_resolve_start_on (.us n) b true init s d hs ho
+  rw [hc] at hr
+  simp only [if_true] at hr
+  have i1 : Inv (timerCfg (.us n) b true init) (setCtx s d) :=
+    inv_of_frame (frame_setCtx s d) rfl (fun h => h) i
+  have lv := leave_spec i1 (by simpa [setCtx] using hf)
+  have lf := leave_fields (setCtx s d)
+  have key := timer_enter_on n hn b true init (leave (setCtx s d)) d hd lv.1.1
+    (by rw [lf.2]; simpa [setCtx] using q.1) (by rw [lf.1]; simpa [setCtx] using hf)
+    (by rw [lv.2.2.2.2]; simpa [setCtx] using hst)
+  have hce : FsmTimer.ctxEvent (timerCfg (.us n) b true init) s (.ev "start") d
+      = (enterLoop (timerCfg (.us n) b true init) (timerCfg (.us n) b true init).tbl.chainLimit
+          (leave (setCtx s d)) d "on", .ret true) := by
+    unfold FsmTimer.ctxEvent; rw [hr]; simp only [key.1]
+  rw [hce]
+  have hnow : (leave (setCtx s d)).now + n.toNat = s.now + n.toNat := by rw [lv.2.2.1]; rfl
+  have hep : (leave (setCtx s d)).epoch + 1 = s.epoch + 1 := by rw [lv.2.2.2.1]; rfl
+  exact ⟨hc, rfl, _, key.2, hnow, rfl, hep⟩
+
+/-- **the output of a Timer is True exactly in state `on`**: whenever the simulation is not aborted and the
+    block is initialised, the output is the translated `calc_output()` of the current state, i.e. `True` in
+    `on` and `False` otherwise -/
+theorem timer_output_true_exactly_in_on (a b : Dur) (r : Bool) (init : String) (ops : List Op)
+    (hf : (run (timerCfg a b r init) {} ops).failed = none)
+    (ho : (run (timerCfg a b r init) {} ops).out.isUndef = false) :
+    (run (timerCfg a b r init) {} ops).out = .bool (timerCalcOutput (run (timerCfg a b r init) {} ops).state) ∧
+    ((run (timerCfg a b r init) {} ops).out = .bool true ↔ (run (timerCfg a b r init) {} ops).state = some "on") := by
+  have k := tout_run a b r init ops {} (fun _ => .inl rfl) hf
+  have hco : ∀ st : Option String, (st == some "on") = timerCalcOutput st := by
+    intro st; by_cases h : st = some "on" <;> simp [timerCalcOutput, h]
+  have h1 : (run (timerCfg a b r init) {} ops).out
+      = .bool (timerCalcOutput (run (timerCfg a b r init) {} ops).state) := by
+    rcases k with k | k
+    · rw [k] at ho; simp [Val.isUndef] at ho
+    · rw [← hco]; exact k
+  refine ⟨h1, ?_⟩
+  rw [h1]
+  by_cases hq : (run (timerCfg a b r init) {} ops).state = some "on" <;>
+    simp [timerCalcOutput, hq, Val.bool]
+
+/-- **`t_on` / `t_off` not given or None = INF**: the translated constructor then leaves the class default
+    INF in force and entering the state starts no timer (`t_period` not given) -/
+theorem timer_duration_none_is_inf (kw : TimerKw) (r : Bool) (init : String) (c : Cfg)
+    (h : timerInitCfg kw r init = .ok c) (hp : kw.tPeriod = none) :
+    ((kw.tOn = none ∨ kw.tOn = some .none) →
+      effDur c "on" .none = .inf ∧ ∀ s tev, startTimer c s "on" tev .none = s) ∧
+    ((kw.tOff = none ∨ kw.tOff = some .none) →
+      effDur c "off" .none = .inf ∧ ∀ s tev, startTimer c s "off" tev .none = s) := by
+  rw [translated_timer_init_is_model] at h
+  obtain ⟨p, a, b⟩ := kw
+  cases hp
+  simp only [timerNew, timerKwargs] at h
+  split at h
+  · cases h
+  · cases h
+    have h1 : timerTable.timedOf "on" = some (.ev "stop", .inf) := by decide
+    have h2 : timerTable.timedOf "off" = some (.ev "start", .inf) := by decide
+    have hl : ∀ (x y : Dur), List.lookup "off" [("on", y), ("off", x)] = some x := by
+      intro x y; simp [List.lookup]
+    constructor
+    · intro ha
+      have : effDur (timerCfg (a.getD .none) (b.getD .none) r init) "on" .none = .inf := by
+        rcases ha with rfl | rfl <;> simp [effDur, Cfg.instDur, timerCfg, h1, clamp]
+      exact ⟨this, fun s tev => by simp only [startTimer, this]⟩
+    · intro hb
+      have : effDur (timerCfg (a.getD .none) (b.getD .none) r init) "off" .none = .inf := by
+        rcases hb with rfl | rfl <;> simp [effDur, Cfg.instDur, timerCfg, h2, hl, clamp]
+      exact ⟨this, fun s tev => by simp only [startTimer, this]⟩
+
+/-- **`t_period`**: the two halves -- `Timer(t_period=p)` is `Timer(t_on=p/2, t_off=p/2)` -- and `t_period` excludes
+    `t_on` and `t_off` (TypeError) -/
+theorem timer_period_is_two_halves (n : Int) (hn : 0 ≤ n) (kw : TimerKw) (r : Bool) (init : String) :
+    timerInitCfg { tPeriod := some (.us n) } r init = .ok (timerCfg (.us (n / 2)) (.us (n / 2)) r init) ∧
+    timerInitCfg { tPeriod := some (.us n) } r init = timerInitCfg { tOn := some (.us (n / 2)), tOff := some (.us (n / 2)) } r init ∧
+    (kw.tPeriod.isSome = true → (kw.tOn.isSome || kw.tOff.isSome) = true →
+      timerInitCfg kw r init = .error .typeError) := by
+  have hn' : ¬ n < 0 := by omega
+  refine ⟨?_, ?_, ?_⟩
+  · rw [translated_timer_init_is_model]; simp [timerNew, timerKwargs, timePeriodDur, halfDur, clamp, hn']
+  · rw [translated_timer_init_is_model, translated_timer_init_is_model]
+    simp [timerNew, timerKwargs, timePeriodDur, halfDur, clamp, hn']
+  · intro h1 h2
+    rw [translated_timer_init_is_model]
+    obtain ⟨p, a, b⟩ := kw
+    cases p with
+    | none => cases h1
+    | some pv => simp only [timerNew, timerKwargs, h2, if_true]
+
+/-- the hypotheses of the four theorems above are satisfiable: a Timer(t_on=1s) that was started is on, with its
+    timer pending, initialised, not stopped; the constructor succeeds for the durations used -/
+example :
+    (let s := run (timerCfg (.us 1000000) .none false) {} [.init, .ev 2000000 .after (.ev "start") {}]
+     s.state = some "on" ∧ s.out.isUndef = false ∧ (live s).map (·.when) = [3000000]) ∧
+    (let s := run (timerCfg (.us 1000000) .none true) {} [.init, .ev 2000000 .after (.ev "start") {}]
+     s.failed = none ∧ s.state = some "on" ∧ s.out.isUndef = false ∧ s.stopped = false ∧
+       (live s).map (·.when) = [3000000]) := by
+  decide +kernel
+
+example : timerInitCfg {} true = .ok (timerCfg .none .none true) ∧
+    timerInitCfg { tOn := some .none, tOff := some (.us 5) } false = .ok (timerCfg .none (.us 5) false) :=
+  ⟨rfl, rfl⟩
 
 end Edzed.TrTie
